@@ -50,8 +50,8 @@ PLANS["C04"] = {
     "thorough": [J("qos2in", "f=3,c=2", 900)],
 }
 PLANS["C06"] = {
-    "quick": [J("inbound32", "f=2", 60), J("inbound32skip", "f=2", 60), J("inbound64", "f=1", 30), J("inboundctl", "f=2", 60), J("inboundcut", "f=2", 60)],
-    "thorough": [J("inbound32", "f=2", 600), J("inbound32skip", "f=2", 600), J("inbound64", "f=2", 600), J("inboundctl", "f=3", 600), J("inboundcut", "f=3", 600)],
+    "quick": [J("inbound32", "f=2", 60), J("inbound32skip", "f=2", 60), J("inbound64", "f=1", 30), J("inboundctl", "f=2", 60), J("inboundcut", "f=2", 60), J("c06-lengths", "quick", 120, test="TestE3", shards=1)],
+    "thorough": [J("inbound32", "f=2", 600), J("inbound32skip", "f=2", 600), J("inbound64", "f=2", 600), J("inboundctl", "f=3", 600), J("inboundcut", "f=3", 600), J("c06-lengths", "thorough", 300, test="TestE3", shards=1)],
 }
 PLANS["C07"] = {
     "quick": [J("acktiming", "p=1,f=1,s=1", 90), J("qos2in", "f=1,c=1", 40)],
